@@ -60,12 +60,12 @@ func (d Date) Equal(e Date) bool {
 
 // Date returns year, month and day values.
 func (d Date) Date() (year int, month Month, day int) {
-	return int(d.year + 1), Month(d.month + 1), int(d.day + 1)
+	return int(d.year) + 1, Month(d.month + 1), int(d.day + 1)
 }
 
 // Year returns date year.
 func (d Date) Year() int {
-	return int(d.year + 1)
+	return int(d.year) + 1
 }
 
 // Month returns date month (from January to December).
@@ -81,7 +81,7 @@ func (d Date) Day() int {
 // Time returns time.Time object based on date value.
 // Time is midnight (0:00:00.0) and zone is time.UTC.
 func (d Date) Time() time.Time {
-	return time.Date(int(d.year+1), time.Month(d.month+1), int(d.day+1), 0, 0, 0, 0, time.UTC)
+	return time.Date(int(d.year)+1, time.Month(d.month+1), int(d.day+1), 0, 0, 0, 0, time.UTC)
 }
 
 // FromTime sets date year, month and day from passed time.Time value.
